@@ -912,6 +912,8 @@ pub struct Network {
     /// Frames are returned unprocessed (no device connected)
     pub echo_only: bool,
     pub max_frame: usize,
+    /// Device `.0` drops off the network when the datagram counter reaches `.1`
+    pub drop_at: Option<(usize, u64)>,
 }
 
 impl Network {
@@ -923,6 +925,7 @@ impl Network {
             wkc_fault: None,
             echo_only: false,
             max_frame: 1514,
+            drop_at: None,
         }
     }
 
@@ -1022,6 +1025,14 @@ impl Network {
 
         for dg in &decoded.datagrams {
             self.stats.datagrams += 1;
+
+            if let Some((di, at)) = self.drop_at {
+                if self.stats.datagrams >= at {
+                    if let Some(d) = self.devices.get_mut(di) {
+                        d.absent = true;
+                    }
+                }
+            }
 
             let dgn = self.stats.datagrams;
             let off = dg.data_off;
